@@ -15,6 +15,9 @@ spec/trace/NtsKeTrace.tla monitor (property section on the recorded behaviour) a
    - at any record boundary, inside a header, inside a body - until the deadline of the call's context has passed
    and then sends the rest; the walks stall too (under CtxMode "ignored" and "returns": the statement leaves open
    whether such a call fails at the deadline or returns late; what it says is judged on the calls that follow).
+   BODY LENGTH: records of an unrecognised type (critical or not) and Warning records with a body of length 0 | 1 |
+   typical, <= 2 of them anywhere in an otherwise acceptable message of <= 4 / <= 5 records (QUIC: <= 1 in <= 4); the
+   walks draw them too.
 3. harness/c20 replays them on the real Fetcher / IPClient against a scripted TLS 1.3 peer that exports its own
    keys (every history is followed by a probe call; histories with unrecognised non-critical records are run a
    second time without them), runs the project's own StartNTSKEServerIP against the real Fetcher and opens its
@@ -50,6 +53,12 @@ def variants(transport):
 
 
 CHUNK = 5000
+# python twins of NtsKe!ErrRecs / UnkCrit / UnkNon / Warns / LenRecs (used for signatures and censuses only)
+ERR_RECS = ("e0", "e1", "e2", "eX")
+UNK_CRIT = ("uc", "uc0", "uc1")
+UNK_NON = ("un", "un0", "un1")
+WARNS = ("warn", "warn0", "warn1")
+LEN_RECS = ("uc0", "uc1", "un0", "un1", "warn0", "warn1")
 KEEP = ("ev", "via", "planned", "served", "dialed", "sess", "ok", "ret", "post", "dest", "has_un", "twin", "id")
 
 
@@ -133,7 +142,7 @@ def summary(sc):
         if r == "ck":
             s["nck"] += 1
         s["a15"] |= r == "a15"
-        s["bad"] |= r in ("e0", "e1", "e2", "eX", "uc")
+        s["bad"] |= r in ERR_RECS + UNK_CRIT
         if r == "eom":
             s["eom"] = True
             break
@@ -158,6 +167,10 @@ def classify(inv, e):
             why.append("no-end-of-message")
         if s["bad"]:
             why.append("error-or-critical-record")
+            recs = e["served"]["recs"]
+            short = sorted({"empty" if r[-1] == "0" else "one-byte" for r in recs if r in LEN_RECS and r in UNK_CRIT})
+            if short and not any(r in ERR_RECS + ("uc",) for r in recs):
+                why[-1] += " [unrecognised critical record with %s body]" % "/".join(short)
         return "%s success despite %s" % (src, "+".join(why) or "?")
     if inv == "TNoResidue":
         return "%s call after failed exchange returns leftover data without a new exchange (keys %s)" % (
@@ -220,6 +233,39 @@ def census_text(c):
             "%(complete_after)d; %(walks)d multi-call walks, further generated calls after the stalled one in %(followed)d)" % c)
 
 
+def len_census(cases):
+    """how the generated histories exercise the BODY LENGTH dimension: exchanges whose message contains a record of an
+    unrecognised type / a Warning with body length 0 or 1, by record; how many of these messages are otherwise
+    acceptable (AEAD 15, >= 1 cookie, End of Message, nothing else that stops ReadData) - i.e. the record's treatment
+    alone decides between success and failure - and in how many the message goes on after the record"""
+    c = dict(histories=0, exchanges=0, otherwise_acceptable=0, goes_on=0, walks=0, **{r: 0 for r in LEN_RECS})
+    for case in cases:
+        hit = False
+        for op in case["h"]:
+            if op["op"] != "fetch" or not any(r in LEN_RECS for r in op["recs"]):
+                continue
+            hit = True
+            c["exchanges"] += 1
+            for r in LEN_RECS:
+                c[r] += r in op["recs"]
+            first = min(i for i, r in enumerate(op["recs"]) if r in LEN_RECS)
+            c["goes_on"] += first < len(op["recs"]) - 1
+            rest = [r for r in op["recs"] if r not in LEN_RECS]
+            rest = rest[:rest.index("eom") + 1] if "eom" in rest else rest
+            c["otherwise_acceptable"] += op["cut"] == "none" and "eom" in rest and "a15" in rest and "ck" in rest and \
+                not any(r in ERR_RECS + UNK_CRIT + WARNS + ("aX",) for r in rest)
+        c["histories"] += hit
+        c["walks"] += hit and len(case["h"]) > 1
+    return c
+
+
+def len_text(c):
+    return ("%(histories)d histories / %(exchanges)d exchanges with a record of body length 0 or 1 (unknown critical: empty "
+            "%(uc0)d, one byte %(uc1)d; unknown non-critical: empty %(un0)d, one byte %(un1)d; Warning: empty %(warn0)d, one "
+            "byte %(warn1)d); the message is otherwise acceptable in %(otherwise_acceptable)d and goes on after the record in "
+            "%(goes_on)d; %(walks)d multi-call walks" % c)
+
+
 NAME_RECS = dict(sA="host", sB="host", sH="host", pA="port", pB="port")
 
 
@@ -246,7 +292,7 @@ def naming_census(cases):
             ok = op["alpn"] == "ntske/1" and "eom" in recs and op.get("stallw", "none") == "none"
             recs = recs[:recs.index("eom")] if "eom" in recs else recs
             ok = ok and "a15" in recs and "ck" in recs and "aX" not in recs and \
-                not any(r in ("e0", "e1", "e2", "eX", "uc", "warn") for r in recs)
+                not any(r in ERR_RECS + UNK_CRIT + WARNS for r in recs)
             if not ok:
                 continue
             kinds = {NAME_RECS[r] for r in recs if r in NAME_RECS}
@@ -393,6 +439,11 @@ def _run(ctx):
                           timeout=600, tag="gen:stall")
     f_qstall = jobs.submit(ctx.tlc, "NtsKeGen", "NtsKe_qgenstall.cfg" if q else "NtsKe_qgenstalldeep.cfg", workers=1,
                            timeout=600, tag="gen:quic-stall")
+    # BODY LENGTH: records of an unrecognised type (critical or not) and Warning records with body length 0 | 1 | typical
+    # in any position of an otherwise acceptable message (NtsKeGen!LenFamily)
+    f_len = jobs.submit(ctx.tlc, "NtsKeGen", "NtsKe_genlen.cfg" if q else "NtsKe_genlendeep.cfg", workers=1, timeout=600,
+                        tag="gen:body-length")
+    f_qlen = jobs.submit(ctx.tlc, "NtsKeGen", "NtsKe_qgenlen.cfg", workers=1, timeout=600, tag="gen:quic-body-length")
     f_sim = [jobs.submit(sim, cfg, nsim) for cfg in ("NtsKe_sim.cfg", "NtsKe_simrep.cfg")]
     f_qgen = jobs.submit(ctx.tlc, "NtsKeGen", "NtsKe_qgen.cfg", workers=1, timeout=600, tag="gen:quic")
     f_qdec = jobs.submit(ctx.tlc, "NtsKeGen", "NtsKe_qgendec.cfg", workers=1, timeout=600, tag="gen:quic-decorated")
@@ -419,6 +470,8 @@ def _run(ctx):
     cases += stall
     name = ctx.emitted(f_name.result()["out"]) + ctx.emitted(f_name2.result()["out"])
     cases += name
+    lenc = ctx.emitted(f_len.result()["out"])
+    cases += lenc
     nexh = len(cases)
     for f in f_sim:
         cases += f.result()
@@ -429,6 +482,8 @@ def _run(ctx):
     qcases += qstall
     qname = ctx.emitted(f_qname.result()["out"]) + ctx.emitted(f_qname2.result()["out"])
     qcases += qname
+    qlenc = ctx.emitted(f_qlen.result()["out"])
+    qcases += qlenc
     nqexh = len(qcases)
     qcases += f_qsim.result()
     qp = ctx.path("qcases.ndjson")
@@ -451,6 +506,14 @@ def _run(ctx):
         if g["none"] < 20 or min(g["host"], g["port"], g["both"]) < 100 or g["two_hosts"] < 20 or g["cached_after"] < 100 \
                 or g["rekey_after"] < 100:
             raise vlib.Inconclusive("the generators exercise the naming dimension too little (%s): %s" % (lbl, naming_text(g)))
+    # vacuity guard for the body length dimension, on what the SPECIFICATION generated
+    lg, qlg = len_census(cases), len_census(qcases)
+    ctx.log("body length of unrecognised / Warning records: TLS " + len_text(lg) + "; QUIC " + len_text(qlg))
+    if len(lenc) < 1000 or min(lg[r] for r in LEN_RECS) < 200 or lg["otherwise_acceptable"] < 50 or lg["goes_on"] < 500 \
+            or lg["walks"] < 20:
+        raise vlib.Inconclusive("the generators exercise the body length dimension too little: %s" % len_text(lg))
+    if len(qlenc) < 100 or min(qlg[r] for r in LEN_RECS) < 15 or qlg["otherwise_acceptable"] < 20:
+        raise vlib.Inconclusive("the QUIC generators exercise the body length dimension too little: %s" % len_text(qlg))
     # ---- 1. design level (independent of each other and of the rest: started now: they run while the driver does)
     f_exh = jobs.submit(ctx.tlc, "NtsKeMC", "NtsKe_exh.cfg" if q else "NtsKe_deep.cfg", timeout=300 if q else 1200)
     f_cov = jobs.submit(ctx.tlc, "NtsKeMC", "NtsKe_cov.cfg", workers=2, timeout=240, coverage=True, tag="coverage")
@@ -461,6 +524,7 @@ def _run(ctx):
     # peer does ("ignored"); the variant that leaves a reader behind ("abandons") is a spec self-test
     f_ctx = [jobs.submit(ctx.tlc, "NtsKeMC", cfg, workers=4, timeout=300 if q else 900, tag="deadline:" + cfg)
              for cfg in (("NtsKe_ctx_exh.cfg",) if q else ("NtsKe_ctx_deep.cfg", "NtsKe_ctx_igndeep.cfg"))]
+    f_lenx = jobs.submit(ctx.tlc, "NtsKeMC", "NtsKe_len_exh.cfg", workers=4, timeout=300, tag="body-length")
     f_hop = jobs.submit(ctx.tlc, "NtsKeMC", "NtsKe_quic_stalehop.cfg", workers=2, timeout=240, allow_violation=True,
                         tag="quic:stale-next-hop")
     f_aban = jobs.submit(ctx.tlc, "NtsKeMC", "NtsKe_ctx_abandons.cfg", workers=2, timeout=240, allow_violation=True,
@@ -544,6 +608,21 @@ def _run(ctx):
         % ("; ".join("%s %d states" % (x["cfg"], x["distinct"]) for x in dl), census_text(sg), census_text(qsg),
            stats.get("stalled", "?"), qstats.get("stalled", "?"), "15 ms", early, qstats.get("returned-early", "?"),
            stats.get("unsettled", "?"), qstats.get("unsettled", "?")))
+    lx = f_lenx.result()
+    lcalls = [e for e in evs + qevs if e["ev"] == "call" and e["dialed"] and any(r in LEN_RECS for r in e["served"]["recs"])]
+    ctx.notes.append(
+        "body length dimension (records of an unrecognised type, critical or not, and Warning records with a body of "
+        "length 0 | 1 | typical; what the statement says about such a record depends on type and critical bit only). SPEC "
+        "side: NtsKe!LenRecs / BodyClass / UnkCrit / UnkNon / Warns; TLC: %s %d distinct states (property section holds); "
+        "generated for replay (NtsKeGen!LenFamily: every message of <= %d records made of <= 1 AEAD(15), <= %d cookies, End "
+        "and <= 2 such records, the peer going on after the record at which the client gives up; the stream may end inside "
+        "the header of one; plus the walks, whose alphabet contains them): TLS %s; QUIC (<= 4 records, <= 1 such record) %s. "
+        "CODE side (information): %d recorded exchanges served such a record, %d of them succeeded; judged by the unchanged "
+        "SuccessOnlyIf / IgnoresNonCritical (twin run without the non-critical records) / NoResidue clauses"
+        % (lx["cfg"], lx["distinct"], 4 if q else 5, 1 if q else 2, len_text(lg), len_text(qlg), len(lcalls),
+           sum(e["ok"] for e in lcalls)))
+    ctx.cov["body_length_dimension"] = dict(spec_tls=lg, spec_quic=qlg, tlc_states=lx["distinct"],
+                                            code=dict(exchanges=len(lcalls), ok=sum(e["ok"] for e in lcalls)))
     mq = [e for e in qevs if e["ev"] == "call" and e["via"] == "measure"]
     mi = [e for e in evs + own if e["ev"] == "call" and e["via"] == "measure"]
     ctx.notes.append(
@@ -594,7 +673,7 @@ def _run(ctx):
     ctx.cov.update(
         evaluations=len(calls), distinct_nontrivial=distinct, events_validated=nev,
         traces_validated_against_impl=nval, exhaustive=True,
-        rule="every peer script of <= %d records over 16 record kinds x truncation of the last record (header / body) x "
+        rule="every peer script of <= %d records over 16 record kinds (typical body lengths) x truncation of the last record (header / body) x "
              "ALPN answer, and every message of <= %d records made of AEAD(15) and cookie records plus at most one record of "
              "any other kind (TLC-enumerated, exhaustive), each followed by a probe call; plus tlc -simulate walks through "
              "NtsKe's Next (<= 6 records, 3 exchanges, 6 calls, StoreCookie) from the old-switch and the default variant; "
@@ -609,8 +688,11 @@ def _run(ctx):
              "Port records + End (<= 6 records; and two such exchanges of <= 4 records in a row), every call made by the NTP "
              "client (client.MeasureClockOffsetIP / client.MeasureClockOffsetSCION with the configured remote address "
              "host:4003) and the request datagram captured where it arrives (SCION: parsed for destination host and UDP port); "
+             "every message of <= %d records made of <= 1 AEAD(15), <= %d cookies, End and <= 2 records of an unrecognised type "
+             "(critical or not) or Warning records with body length 0 | 1 | typical (TLS; QUIC: <= 4 records, <= 1 such "
+             "record); "
              "distinct = distinct (transport, served script, dialed, via)"
-             % ((3, 4, 3, 2) if q else (4, 6, 4, 3)),
+             % ((3, 4, 3, 2, 4, 1) if q else (4, 6, 4, 3, 5, 2)),
         samples=[{k: x[k] for k in x if k != "twin"} for x in [firstok, own[1] if len(own) > 1 else None, qok, qnamed] + stalled if x])
     ctx.assumptions += [
         "the scripted peer writes each message in one TLS record / one stream write and closes gracefully "
